@@ -18,7 +18,7 @@ for d in sorted(glob.glob(os.path.join(HERE,"seeded","C*-*"))):
     for f in logs:
         try:
             for l in open(os.path.join(d,f)):
-                m=re.search(r" (C\d\d) exit=(\d)",l)
+                m=re.search(r" (C\d\d)(?:@checked)? exit=(\d)",l)   # C12@checked = C12's pass on the checked profile (part of run_check.sh C12)
                 if m and m.group(2)=="1" and m.group(1) not in det: det.append(m.group(1))
                 if m and m.group(2)=="2" and m.group(1) not in inc: inc.append(m.group(1))
         except Exception: pass
